@@ -6,12 +6,22 @@
   The model follows note.c AFTER the repair of defect F5 (/verif/fixes/F5/note_fix.diff):
   `nsync_note_new` takes the minimum of `abs_deadline` and `parent->expiry_time` whether or not the
   new note starts out notified, and a note created under an already notified parent gets its
-  `notified` flag set (note.c/7) instead of a zero `expiry_time`.
+  `notified` flag set (note.c/7) instead of a zero `expiry_time`;
+  and AFTER the repair of defects F4 and F7 (/verif/fixes/F4F7/note_fix.diff):
+  * F7 "the last disconnector unlinks": the recursive call of `note_notify_child` is bracketed by
+    `child->disconnecting++ / --`, and the unlink of `n` from `parent` is performed at the end of
+    EVERY activation of `note_notify_child` (whether or not it found `n` notified already), but
+    only if `n->disconnecting == 1`;
+  * F4 "adopters wake the scanner, which rescans": the new plain field `children_adopted`
+    (`NoteRec.adopted`), set by `nsync_note_free` when it appends an adopted child to
+    `parent->children`, cleared by the two scanners (`note_notify_child`, `nsync_note_free`) before
+    each scan of `children`; both scanners loop
+    `do { children_adopted = 0; scan; WAIT_FOR_NO_CHILDREN (no_children_or_adopted) } while (!no_children)`.
 
   Granularity: one step = one atomic operation on `note<k>.notified` / `nw<r>.waiting`, one lock
   operation on a note's mutex, one clock read, one semaphore operation of a waiter record, one
   `malloc`/`free`, one API boundary, or one `tick`.  The plain (non-atomic) updates of the forest
-  (`parent`, `children`, `disconnecting`, `waiters`, `expiry_time`) are folded into the step of the
+  (`parent`, `children`, `children_adopted`, `disconnecting`, `waiters`, `expiry_time`) are folded into the step of the
   event that precedes them in the same scheduling window; the harness logs the real forest after
   every note API return and the driver compares it with the model's (`state` lines).
 
@@ -20,10 +30,11 @@
     `nsync_mu_lock` completes (`nret nsync_mu_lock`) only when nobody holds the lock,
     `nsync_mu_unlock` releases it (at its `ncall`), `nsync_mu_trylock` returns 1 only when nobody
     holds the lock (it may return 0 at any time).  The model *checks* this on the log.
-  * A2 (property C06): `WAIT_FOR_NO_CHILDREN (n)` = `nsync_mu_wait (&n->note_mu, no_children, n)`
-    returns only when `n->children` is empty and with the lock held; if the list is empty at the
-    call the lock is never released, otherwise it is released (model: at the `ncall`) and
-    re-acquired (model: at the `nret`).
+  * A2 (property C06): `WAIT_FOR_NO_CHILDREN (n)` =
+    `nsync_mu_wait (&n->note_mu, no_children_or_adopted, n)` returns only when the condition
+    (`n->children` is empty or `n->children_adopted` is set) holds and with the lock held; if the
+    condition holds at the call the lock is never released, otherwise it is released (model: at
+    the `ncall`) and re-acquired (model: at the `nret`).
   * A3: the semaphore of a waiter record is harness-provided; `pd_ret 0` may happen at any time
     (the wait loop re-tests), `pd_ret ETIMEDOUT` only at or after the deadline.
   * Contract of the API (nsync_note.h), enforced as rejections: a note is passed to an API call
@@ -129,7 +140,7 @@ inductive DPos
   deriving DecidableEq, Repr
 
 /-- Positions inside `notify` (outside `note_notify_child`). `s…` = slow path after a failed
-    trylock (note.c:126-128). -/
+    trylock (note.c:155-159). -/
 inductive NPos
   | lockCall | lockRet | ld | tryCall | tryRet
   | sUnlockCall | sUnlockRet | sLockPCall | sLockPRet | sLockNCall | sLockNRet
@@ -282,6 +293,8 @@ structure NoteRec where
   disconnecting : Nat
   waiters : List Rid
   lockHolder : Option Tid
+  /-- `children_adopted`: children were adopted since the last scan of `children` -/
+  adopted : Bool
   /-- `malloc` returned this note at some time -/
   allocated : Bool
   /-- `free` was performed on it -/
@@ -290,7 +303,7 @@ structure NoteRec where
 
 def NoteRec.blank : NoteRec :=
   { parent := none, children := [], notified := false, expiry := none, disconnecting := 0,
-    waiters := [], lockHolder := none, allocated := false, freed := false }
+    waiters := [], lockHolder := none, adopted := false, allocated := false, freed := false }
 
 /-- `NOTIFIED_TIME (n)` -/
 def NoteRec.ntime (r : NoteRec) : Dl := if r.notified then some 0 else r.expiry
@@ -406,6 +419,10 @@ def State.decDisc (s : State) (k : NoteId) : State :=
 def State.link (s : State) (c p : NoteId) : State :=
   (s.modNote p (fun r => { r with children := r.children ++ [c] })).modNote c
     (fun r => { r with parent := some p })
+
+/-- `n->children_adopted = b` -/
+def State.setAdopted (s : State) (k : NoteId) (b : Bool) : State :=
+  s.modNote k (fun r => { r with adopted := b })
 
 def State.setWaiters (s : State) (k : NoteId) (ws : List Rid) : State :=
   s.modNote k (fun r => { r with waiters := ws })
@@ -558,16 +575,40 @@ def childReturnPc (f : Frame) (rest : List Frame) (top : Top) : PC :=
     | some _ => .nfy .unlockPCall top.n top.par top.k
     | none => .nfy .unlockCall top.n top.par top.k
 
-/-- The outermost activation returns to a `notify` that holds no parent lock: `n->disconnecting--`
-    follows at once. -/
-def childReturnDec (rest : List Frame) (top : Top) : Bool :=
-  match rest, top.par with
-  | [], none => true
-  | _, _ => false
+/-- The `parent` argument of the innermost activation. -/
+def frameParent (rest : List Frame) (top : Top) : Option NoteId :=
+  match rest with
+  | g :: _ => some g.note
+  | [] => top.par
 
-/-- The innermost activation of `note_notify_child` (head of `f :: rest`) returns. -/
+/-- The tail of `note_notify_child (n, parent)` (repair of F7, "the last disconnector unlinks"):
+    the parent the activation unlinks `n` from, if it does:
+    `if (parent != NULL && n->disconnecting == 1)` -/
+def childUnlinks (s : State) (f : Frame) (rest : List Frame) (top : Top) : Option NoteId :=
+  match frameParent rest top with
+  | some p => if (s.notes f.note).disconnecting = 1 then some p else none
+  | none => none
+
+/-- … `{ parent->children = remove (parent->children, n); n->parent = NULL; }` -/
+def childUnlink (s : State) (f : Frame) (rest : List Frame) (top : Top) : State :=
+  match childUnlinks s f rest top with
+  | some p => s.unlink f.note p
+  | none => s
+
+/-- The `disconnecting--` that follows the return of an activation at once: `child->disconnecting--`
+    in the recursion, `n->disconnecting--` in a `notify` that holds no parent lock. -/
+def childReturnDec (f : Frame) (rest : List Frame) (top : Top) : Option NoteId :=
+  match rest, top.par with
+  | _ :: _, _ => some f.note
+  | [], none => some top.n
+  | [], some _ => none
+
+/-- The innermost activation of `note_notify_child` (head of `f :: rest`) returns: its tail (the
+    conditional unlink), and the plain code of the caller up to its next event. -/
 def childReturn (s : State) (t : Tid) (f : Frame) (rest : List Frame) (top : Top) : State :=
-  (if childReturnDec rest top then s.decDisc top.n else s).setPc t (childReturnPc f rest top)
+  (match childReturnDec f rest top with
+    | some k => (childUnlink s f rest top).decDisc k
+    | none => childUnlink s f rest top).setPc t (childReturnPc f rest top)
 
 /-- `note_notify_child`: the loop over the waiters is finished; start the loop over the children
     `cs` (`p = first (n->children)`, `next = next (p)`). -/
@@ -576,13 +617,18 @@ def childLoopStartPc (cs : List NoteId) (f : Frame) (rest : List Frame) (top : T
   | [] => .chd .waitCall (f :: rest) top
   | c :: cs' => .chd (.lockChild c) ({ f with next := cs'.head? } :: rest) top
 
+/-- `note_notify_child`: (re)start the scan of the children:
+    `n->children_adopted = 0; p = first (n->children); …`. -/
+def childScanStart (s : State) (t : Tid) (f : Frame) (rest : List Frame) (top : Top) : State :=
+  (s.setAdopted f.note false).setPc t (childLoopStartPc (s.notes f.note).children f rest top)
+
 /-- `note_notify_child`: continue waking waiters (the record is unlinked before its `waiting`
     word is cleared) or go on to the children. -/
 def childWakeNext (s : State) (t : Tid) (f : Frame) (rest : List Frame) (top : Top) : State :=
   match (s.notes f.note).waiters with
   | r :: ws =>
     (s.setWaiters f.note ws).setPc t (.chd (.wake r) (f :: rest) top)
-  | [] => s.setPc t (childLoopStartPc (s.notes f.note).children f rest top)
+  | [] => childScanStart s t f rest top
 
 /-- `nsync_note_free`: start the loop over the children `cs`. -/
 def freeLoopStartPc (cs : List NoteId) (n : NoteId) (par : Option NoteId) : PC :=
@@ -590,18 +636,13 @@ def freeLoopStartPc (cs : List NoteId) (n : NoteId) (par : Option NoteId) : PC :
   | [] => .fr .waitCall n par 0 none
   | c :: cs' => .fr .lockChild n par c cs'.head?
 
+/-- `nsync_note_free`: (re)start the scan of the children: `n->children_adopted = 0; …`. -/
 def freeLoopStart (s : State) (t : Tid) (n : NoteId) (par : Option NoteId) : State :=
-  s.setPc t (freeLoopStartPc (s.notes n).children n par)
+  (s.setAdopted n false).setPc t (freeLoopStartPc (s.notes n).children n par)
 
 /-- Enter `note_notify_child (n, par)` from `notify`. -/
 def enterChild (s : State) (t : Tid) (n : NoteId) (par : Option NoteId) (k : NK) : State :=
   s.setPc t (.chd .ld [⟨n, none⟩] ⟨n, par, k⟩)
-
-/-- The `parent` argument of the innermost activation. -/
-def frameParent (rest : List Frame) (top : Top) : Option NoteId :=
-  match rest with
-  | g :: _ => some g.note
-  | [] => top.par
 
 /-! ### The acceptor -/
 
@@ -811,7 +852,8 @@ def stepLockRet (s : State) (t : Tid) : Except String State :=
   | .chd (.lockChildRet c) stk top =>
     need ((s.notes c).lockHolder = none) "mu_lock returned while the lock is held" <|
     if (s.notes c).disconnecting = 0 then
-      .ok ((s.acquire c t).setPc t (.chd .ld (⟨c, none⟩ :: stk) top))
+      -- child->disconnecting++; note_notify_child (child, n)
+      .ok (((s.acquire c t).incDisc c).setPc t (.chd .ld (⟨c, none⟩ :: stk) top))
     else .ok ((s.acquire c t).setPc t (.chd (.unlockChild c) stk top))
   | .newP .lockRet n p dl =>
     need ((s.notes p).lockHolder = none) "mu_lock returned while the lock is held" <|
@@ -835,8 +877,9 @@ def stepLockRet (s : State) (t : Tid) : Except String State :=
     if (s.notes c).disconnecting = 0 then
       -- n->children = remove (n->children, child); child->parent = parent; append to parent
       let s2 := s1.eraseChild n c
+      -- … parent->children_adopted = 1
       let s3 := match par with
-        | some p => s2.link c p
+        | some p => (s2.link c p).setAdopted p true
         | none => s2.clearParent c
       .ok (s3.setPc t (.fr .unlockChild n par c nx))
     else .ok (s1.setPc t (.fr .unlockChild n par c nx))
@@ -943,12 +986,15 @@ def stepTryRet (s : State) (t : Tid) (ok : Bool) : Except String State :=
   | .idle => .error "nret mu_trylock: thread is outside any note call"
   | _ => .error "nret mu_trylock: no trylock in progress"
 
+/-- `no_children_or_adopted (n)` -/
+def NoteRec.waitDone (r : NoteRec) : Bool := decide (r.children = []) || r.adopted
+
 /-- `ncall nsync_mu_wait note<k>.mu` = WAIT_FOR_NO_CHILDREN (A2): the lock is released iff the
-    children list is not empty. -/
+    condition `no_children_or_adopted` is false. -/
 def stepWaitCall (s : State) (t : Tid) (k : NoteId) : Except String State :=
   need ((s.notes k).allocated = true) "mu_wait: unknown note" <|
   need ((s.notes k).lockHolder = some t) "mu_wait: lock not held by this thread" <|
-  let kept : Bool := decide ((s.notes k).children = [])
+  let kept : Bool := (s.notes k).waitDone
   let s1 := if kept then s else s.release k
   match s.pc t with
   | .chd .waitCall (f :: rest) top =>
@@ -959,27 +1005,31 @@ def stepWaitCall (s : State) (t : Tid) (k : NoteId) : Except String State :=
   | .idle => .error "mu_wait: note mutex used by a thread outside any note call"
   | _ => .error "mu_wait: the code does not wait at this point"
 
-/-- `nret nsync_mu_wait -` (A2): only when the children list is empty and the lock is free (or was
-    never released); then the disconnection from the parent. -/
+/-- `nret nsync_mu_wait -` (A2): only when the condition `no_children_or_adopted` holds and the
+    lock is free (or was never released); then `while (!no_children (n))`: another scan if
+    children were adopted meanwhile, otherwise the end of the activation (`note_notify_child`:
+    its tail) / the disconnection from the parent (`nsync_note_free`). -/
 def stepWaitRet (s : State) (t : Tid) : Except String State :=
   match s.pc t with
   | .chd (.waitRet kept) (f :: rest) top =>
-    need ((s.notes f.note).children = []) "mu_wait returned while the note has children" <|
+    need ((s.notes f.note).waitDone = true)
+      "mu_wait returned while the note has children and none was adopted" <|
     need ((s.notes f.note).lockHolder = (if kept then some t else none))
       "mu_wait returned while the lock is held by another thread" <|
     let s1 := s.acquire f.note t
-    let s2 := match frameParent rest top with
-      | some p => s1.unlink f.note p
-      | none => s1
-    .ok (childReturn s2 t f rest top)
+    if (s.notes f.note).children = [] then .ok (childReturn s1 t f rest top)
+    else .ok (childScanStart s1 t f rest top)
   | .fr (.waitRet kept) n par c nx =>
-    need ((s.notes n).children = []) "mu_wait returned while the note has children" <|
+    need ((s.notes n).waitDone = true)
+      "mu_wait returned while the note has children and none was adopted" <|
     need ((s.notes n).lockHolder = (if kept then some t else none))
       "mu_wait returned while the lock is held by another thread" <|
     let s1 := s.acquire n t
-    match par with
-    | some p => .ok ((s1.unlink n p).setPc t (.fr .unlockPCall n par c nx))
-    | none => .ok ((s1.decDisc n).setPc t (.fr .unlockCall n par c nx))
+    if (s.notes n).children = [] then
+      match par with
+      | some p => .ok ((s1.unlink n p).setPc t (.fr .unlockPCall n par c nx))
+      | none => .ok ((s1.decDisc n).setPc t (.fr .unlockCall n par c nx))
+    else .ok (freeLoopStart s1 t n par)
   | .idle => .error "nret mu_wait: thread is outside any note call"
   | _ => .error "nret mu_wait: no wait in progress"
 
@@ -1097,6 +1147,11 @@ def touches (s : State) : Event → List NoteId
     match s.pc t with
     | .newP .ld n p _ => k :: n :: p :: (s.notes p).children
     | .dl .ld1 n _ (.newSelf (some p) _) => [k, n, p]
+    | .chd .ld (f :: rest) top =>
+      -- the tail of the activation when the note is notified already: `n->disconnecting`, the
+      -- unlink from the parent, the caller's `disconnecting--`
+      k :: f.note :: top.n ::
+        (match frameParent rest top with | some p => p :: (s.notes p).children | none => [])
     | _ => [k]
   | .stNote _ _ _ k _ _ => k :: (s.notes k).children
   | .lockCall _ k | .unlockCall _ k | .tryCall _ k | .waitCall _ k => [k]
@@ -1127,17 +1182,26 @@ def touches (s : State) : Event → List NoteId
   | .waitRet t =>
     match s.pc t with
     | .chd (.waitRet _) (f :: rest) top =>
-      f.note :: top.n ::
+      f.note :: top.n :: (s.notes f.note).children ++
         (match frameParent rest top with | some p => p :: (s.notes p).children | none => [])
     | .fr (.waitRet _) n par _ _ =>
-      n :: (match par with | some p => p :: (s.notes p).children | none => [])
+      n :: (s.notes n).children ++
+        (match par with | some p => p :: (s.notes p).children | none => [])
     | _ => []
   | .semV t _ =>
     match s.pc t with
     | .chd (.semV _) (f :: _) _ => f.note :: (s.notes f.note).children
     | _ => []
-  | .malloc _ res => res.toList
-  | .free _ k => [k]
+  -- (a `malloc` / `free` event of a thread that is outside any note call is traffic of another
+  -- layer: the acceptor ignores it, and it is no access of this layer)
+  | .malloc t res =>
+    match s.pc t with
+    | .newMalloc _ _ => res.toList
+    | _ => []
+  | .free t k =>
+    match s.pc t with
+    | .fr .free _ _ _ _ => [k]
+    | _ => []
   | .ret t _ =>
     match s.pc t with
     | .retExpiry n => [n]
